@@ -128,7 +128,9 @@ func (c *Collection) findView(ctx context.Context, q queryable, designDoc string
 	if err != nil {
 		if err == sql.ErrNoRows {
 			err = sgbucket.MissingError{Key: key.String()}
+			c.mutex.Lock()
 			delete(c.viewCache, key) // Remove any cached copy
+			c.mutex.Unlock()
 		}
 		return
 	}
